@@ -201,3 +201,6 @@ Proof.
   - apply cd_step_bin. - apply cd_step_cmp. - apply cd_step_not. - apply cd_step_and. - apply cd_step_or.
   - apply cd_step_if.
 Qed.
+
+Lemma cd_pins : src_pin_base = true /\ src_pin_cd = true.
+Proof. split; reflexivity. Qed.
